@@ -89,4 +89,11 @@ CHECKS.update({
   "note": "FIN/RESET below data already received and frames on streams already finished carry no obligation. Buffer sizes are attribute reads.",
  },
 })
+CHECKS.update({
+ "C11": {
+  "technique": "exhaustive enumeration (12 states x 256 message types; all bounded flight sequences) driven by a key-holding adversary built on an independent TLS 1.3 implementation, judged by a reference order automaton",
+  "text": "Every handshake state of tls.Context is reached by a legitimate prefix against the scriptable reference peers of vlib/reftls.py and fed one message of every type byte: types TLS 1.3 does not permit there must raise the unexpected_message alert, leave the state unchanged and install no key. A reference server that really performs the key exchange then sends every ordered sequence of {EE, CertificateRequest, Certificate, CertificateVerify (genuine / wrong key), Finished} with each message at most twice up to a bounded length, recomputing signatures and MACs over its own transcript (also with a PSK selected, offered-but-not-selected, and a non-offered PSK index); a reference client does the same with the client flight against an aioquic server with and without a certificate request. The aioquic side must complete iff the sequence is the legal one, release ONE_RTT keys only on the accepted Finished and handshake keys only after ServerHello, and never change state on a refused message.",
+  "note": "CLIENT_HANDSHAKE_START excluded (not reachable by network input). Trusted base: vlib/reftls.py (anchored by interop with an unmodified aioquic in both roles). Exhaustive within the stated bounds only.",
+ },
+})
 PENDING = {}
